@@ -6,6 +6,7 @@ The signature relation is abstract: `m.sigBy = some k` means the packet's signat
 re-encoded ToBeSignedData (payload + signed header information) exactly as received.
 -/
 import FlexModel.Sec.Lemmas
+import Generated.Sec
 
 namespace Props.C03
 open FlexModel.Sec FlexModel.Sec.Store
@@ -164,6 +165,19 @@ theorem unresolved_packet_leaves_library {cfg : Cfg} {S S' : Station} {m : Msg} 
   have hcore := verifyMsg_core cfg S m
   rw [h] at hcore
   exact unresolved_core hcore.symm hr
+
+/-- regenerated fact: the repository's ReportVerify enum has exactly the values the model's reports print
+    (a renumbered or extended enum re-opens this obligation) -/
+theorem report_codes_agree :
+    Generated.Sec.reportCodes =
+      [("SUCCESS", Report.success.code), ("FALSE_SIGNATURE", Report.falseSignature.code),
+       ("INVALID_CERTIFICATE", Report.invalidCertificate.code), ("REVOKED_CERTIFICATE", Report.revokedCertificate.code),
+       ("INCONSISTENT_CHAIN", Report.inconsistentChain.code), ("INVALID_TIMESTAMP", Report.invalidTimestamp.code),
+       ("DUPLICATE_MESSAGE", Report.duplicateMessage.code), ("INVALID_MOBILITY_DATA", Report.invalidMobilityData.code),
+       ("UNSIGNED_MESSAGE", Report.unsignedMessage.code),
+       ("SIGNER_CERTIFICATE_NOT_FOUND", Report.signerCertificateNotFound.code),
+       ("UNSUPPORTED_SIGNER_IDENTIFIER_TYPE", Report.unsupportedSignerIdentifierType.code),
+       ("INCOMPATIBLE_PROTOCOL", Report.incompatibleProtocol.code)] := by decide
 
 /-! ## Non-vacuity: the honest packet IS delivered, its tampered twins are not -/
 
